@@ -12,7 +12,7 @@ def claim(pid, category, technique, text, note, design_ref, engine):
     C[pid] = dict(category=category, technique=technique, text=text, note=note, design_ref=design_ref, engine=engine)
 
 claim('C14', 'model_checking', 'explicit-state BFS over operation histories of the real DefaultStore against a map reference model, crash at every durable-write boundary',
-      'All operation histories up to the depth bound (save block at 2-3 heights in three variants, set height, update state, set metadata on the node\'s key shapes, reopen, crash before the k-th durable write of a write operation followed by reopen) are executed on the real store over a logging datastore double; every getter is compared with a map model after every history; states are merged on the durable image. Exhaustive within the bound.',
+      'All operation histories up to the depth bound (save block at 2-3 heights in three variants, set height, update state, set metadata on the node\'s key shapes, reopen, crash before the k-th durable write of a write operation followed by reopen) are executed on the real store over a logging datastore double; every getter is compared with a map model after every history; states are merged on the durable image. Exhaustive within the bound. The merge key includes the in-memory fields of the store object (reflection), taken before the getters run.',
       'Trusted: go-datastore contract (single put and batch commit atomic+durable) as modelled by the KV double; small scope (heights<=3, depth<=5/6).',
       'DESIGN.md section 5 C14', 'bfs')
 
@@ -25,8 +25,8 @@ claim('C04', 'fault_enumeration', 'exhaustive crash-point enumeration over the r
       'Trusted: datastore atomicity contract; file operations are durable in program order (no fsync reordering model); doubles as C01.',
       'DESIGN.md section 5 C04', 'explore')
 claim('C10', 'model_checking', 'explicit-state BFS over submit/next/reload/crash histories of the real single sequencer against a FIFO slice model',
-      'All operation histories to a fixpoint (depth 8 quick / 12 thorough) over {submit A/B/C(/D), identical resubmission, empty, foreign chain id, next, reload, crash before the k-th durable write of submit/next + reload} with queue sizes 2-3 (1-4) on the real single.Sequencer over the logging datastore; answers are compared with a slice model (order, exactly-once, durability, rejected-leaves-no-trace, bound). The concurrent-submitter part of the property is not yet covered.',
-      'Trusted: datastore double with sorted iteration like badger; sequential histories only (interleavings of concurrent submitters pending).',
+      'All operation histories to a fixpoint (depth 8 quick / 12 thorough) over {submit A/B/C(/D), identical resubmission, empty, foreign chain id, next, reload, crash before the k-th durable write of submit/next + reload} with queue sizes 2-3 (1-4) on the real single.Sequencer over the logging datastore; answers are compared with a slice model (order, exactly-once, durability, rejected-leaves-no-trace, bound).  Concurrent part: two submitters and a consumer on the real sequencer under the cooperative scheduler (queue mutex through the lock shim, datastore operations as gates), all interleavings within the delay bound for queue sizes 1-3, each history (+ reload + drain) checked for linearizability with porcupine.',
+      'Trusted: datastore double with sorted iteration like badger; delay-bounded interleavings of 2 submitters + 1 consumer.',
       'DESIGN.md section 5 C10', 'bfs')
 
 claim('C06', 'model_checking', 'stateless exhaustive enumeration of DA answers and crash points against the unmodified submission loops under virtual time (testing/synctest)',
@@ -34,16 +34,16 @@ claim('C06', 'model_checking', 'stateless exhaustive enumeration of DA answers a
       'Trusted: synctest virtual time; DA/executor/sequencer doubles; loops started 1 ms apart so their timers never coincide (both orders explored); small scope (<=5 blocks, <=2-3 DA faults, <=1-2 crashes).',
       'DESIGN.md section 5 C06', 'explore')
 claim('C08', 'model_checking', 'exhaustive enumeration of produce/DA-block/outage action sequences on the real production step and submission loops under virtual time',
-      'Every action sequence up to depth 6 (quick) / 8 (thorough) over {produce non-empty, produce empty, DA block with accepting DA, DA block of outage (<=3)} for limits 1-3 and initial heights 1 and 3; a declined production must coincide with at least `limit` committed blocks whose header or non-empty data the DA has not acknowledged (ground truth of the DA double), and after three accepting DA blocks production must resume.',
+      'Every action sequence up to depth 6 (quick) / 8 (thorough) over {produce non-empty, produce empty, DA block with accepting DA, DA block of outage (<=3)} for limits 1-3 and initial heights 1 and 3; a declined production must coincide with at least `limit` committed blocks whose header or non-empty data the DA has not acknowledged (ground truth of the DA double), and after three accepting DA blocks production must resume. Part 2: lazy mode on an idle chain with the real AggregationLoop and submission loops under the scheduler, every DA outage pattern over 6/8 DA blocks, limits 1-2; production must resume within two idle intervals after the DA accepted everything.',
       'Trusted: synctest virtual time; doubles; weakest reading of "genuinely waiting" (one count per block).',
       'DESIGN.md section 5 C08', 'explore')
 
 claim('C02', 'exploration', 'exhaustive enumeration of delivery orders (all permutations, one duplicate, one clean restart) against the real SyncLoop in a synctest bubble',
-      'For every producer chain pattern over {empty, A, B} (incl. identical transaction lists; produced by a real aggregator run) every permutation of the header/data events is pushed into the real SyncLoop input channels one event at a time, with at most one duplicated event at any later position and one clean stop/restart (SaveCache, NewManager, LoadCache) at any idle point; after every delivery the full node store is compared with the producer (hashes, transactions, state root), the height must equal the highest height whose parts were all delivered, and execution calls must be in height order.',
+      'For every producer chain pattern over {empty, A, B} (incl. identical transaction lists; produced by a real aggregator run) every permutation of the header/data events is pushed into the real SyncLoop input channels one event at a time, with at most one duplicated event at any later position and one clean stop/restart (SaveCache, NewManager, LoadCache) at any idle point; after every delivery the full node store is compared with the producer (hashes, transactions, state root), the height must equal the highest height whose parts were all delivered, and execution calls must be in height order. Ingress level: all five loops of the full node under the cooperative scheduler with harness-side event queues (buffered-channel semantics; the explorer decides who goes next whenever an event is deliverable), DA placements within bounded deviations incl. \'everything already on the DA layer\', optional P2P copy of the chain, one clean restart between any two steps.',
       'Trusted: synctest quiescence; event-level delivery (one event at a time); DA/P2P ingress loops are exercised in C09/C13, not here; small scope (<=3 blocks above genesis).',
       'DESIGN.md section 5 C02', 'explore')
 claim('C05', 'fault_enumeration', 'exhaustive crash-point enumeration over the durable writes of block application in the real SyncLoop, reboot on the image, all redelivery orders within budget',
-      'While the real SyncLoop applies a producer chain (three canonical pre-crash delivery orders) every durable write is a crash point (up to 2, recurring during recovery); the node is rebooted on the exact image without caches; directly after restart every height up to the recorded chain height must have a retrievable block identical to the producer and the state must be at that height; then the complete event set is delivered again in every order within the order budget and the node must reach the producer chain.',
+      'While the real SyncLoop applies a producer chain (three canonical pre-crash delivery orders) every durable write is a crash point (up to 2, recurring during recovery); the node is rebooted on the exact image without caches; directly after restart every height up to the recorded chain height must have a retrievable block identical to the producer and the state must be at that height; then the complete event set is delivered again in every order within the order budget and the node must reach the producer chain. Ingress level: DA-only full node with all loops under the scheduler, bounded placement/delivery deviations, one crash before any durable write, reboot without caches, recovery through the node\'s own DA scan, liveness under continued operation.',
       'Trusted: datastore atomicity contract; executor external and idempotent on re-execution; small scope (<=3 blocks above genesis, order budget 2/4).',
       'DESIGN.md section 5 C05', 'explore')
 
@@ -53,16 +53,16 @@ claim('C03', 'exploration', 'exhaustive enumeration of (adversarial catalogue it
       'DESIGN.md section 5 C03', 'world')
 
 claim('C09', 'exploration', 'exhaustive enumeration of DA layouts x fetch-outcome sequences x start heights against the real RetrieveLoop under virtual time; bounded-exhaustive blob mutations',
-      'The real RetrieveLoop runs in a synctest bubble against the DA double; part 1 enumerates every layout of 3-4 DA heights over {empty, genuine, junk, genuine+junk, 101 blobs across the 100-id chunk boundary}, start heights {0,1,3} and every sequence of fetch outcomes (ok, listing error, not found, from the future, error fetching blobs) within the deviation budget; the listing-call log must be gap-free, start at the configured height and pass a height only after an ok/confirmed-empty answer, every genuine blob of a successfully examined height must be handed to sync exactly as itself, nothing else may be handed over, the loop must not stall; part 2 scans every prefix and single-byte substitution of a genuine header and data blob and a list of malformed shapes next to genuine blobs (no panic, genuine still delivered, nothing else delivered).',
+      'The real RetrieveLoop runs in a synctest bubble against the DA double; part 1 enumerates every layout of 3-4 DA heights over {empty, genuine, junk, genuine+junk, 101 blobs across the 100-id chunk boundary}, start heights {0,1,3} and every sequence of fetch outcomes (ok, listing error, not found, from the future, error fetching blobs) within the deviation budget; the listing-call log must be gap-free, start at the configured height and pass a height only after an ok/confirmed-empty answer, every genuine blob of a successfully examined height must be handed to sync exactly as itself, nothing else may be handed over, the loop must not stall; part 2 scans every prefix and single-byte substitution of a genuine header and data blob and a list of malformed shapes next to genuine blobs (no panic, genuine still delivered, nothing else delivered). Part 3: back-pressure — with the sync loop\'s input channel filled to capacity the scan must wait and deliver the genuine blob after the channel is drained.',
       'Trusted: synctest; DA double; the harness drains the sync input channels instead of SyncLoop; in-call retries and early return on a future height are accepted behaviours.',
       'DESIGN.md section 5 C09', 'explore')
 
 claim('C07', 'model_checking', 'stateless exploration of real goroutine interleavings under a cooperative scheduler (gates at every environment call, synctest quiescence), DA faults, crash points and clean restarts, deviation-bounded',
-      'Sequencer part: the real production step, HeaderSubmissionLoop, DataSubmissionLoop and DAIncluderLoop run as threads of a cooperative scheduler inside a synctest bubble (exactly one thread runs between two environment calls; the explorer picks who continues, delay-bounded), with DA answers, crash points before every Submit and every durable write, and clean restarts; full-node part: RetrieveLoop, SyncLoop, DAIncluderLoop and both P2P loops likewise, with every bounded deviation from the canonical placement of the genuine blobs on 3 DA heights, gated sends into the sync loop (consumer-idle rule). After every DA block: reported height monotone (also across restarts), not above the chain height, finalize calls in order and before reporting, reported >= h only if header(h) and non-empty data(h) are on the DA double, recorded DA heights name heights where the blobs really are; at the end everything on the DA layer must be reported.',
+      'Sequencer part: the real production step, HeaderSubmissionLoop, DataSubmissionLoop and DAIncluderLoop run as threads of a cooperative scheduler inside a synctest bubble (exactly one thread runs between two environment calls; the explorer picks who continues, delay-bounded), with DA answers, crash points before every Submit and every durable write, and clean restarts; full-node part: RetrieveLoop, SyncLoop, DAIncluderLoop and both P2P loops likewise, with every bounded deviation from the canonical placement of the genuine blobs on 3 DA heights, gated sends into the sync loop (consumer-idle rule). After every DA block: reported height monotone (also across restarts), not above the chain height, finalize calls in order and before reporting, reported >= h only if header(h) and non-empty data(h) are on the DA double, recorded DA heights name heights where the blobs really are; at the end everything on the DA layer must be reported. Also: one refused finalize call, one failed write of the persisted DA-included height, observation of the in-memory height at the crash instant, data that is absent from the DA layer and arrives over P2P only; liveness is judged under continued operation (the chain\'s next block is published after the fault phase).',
       'Trusted: synctest; scheduling granularity = environment calls (datastore, DA, executor), plain memory accesses between two calls are atomic; Go\'s random select choice at a stop instant is frozen out (a cancelled process consumes no decision point); bounds: <=2 (quick) / 3 (thorough) deviations in total.',
       'DESIGN.md section 5 C07', 'explore+sched')
 claim('C12', 'exploration', 'bounded-exhaustive enumeration of wire values (cross products, pairs/triples of field variations), golden vectors, and all short byte strings / prefixes / single-byte substitutions for every decoder',
-      'Value round trips for every wire type over small field domains (full cross product for small types, pairwise/triple variations for headers) through the store, DA and cache-file paths; golden byte/hash vectors generated from the pinned tree compared verbatim; every decoder on all byte strings of length <=2/3 and on every prefix and single-byte substitution of every golden encoding (no panic, re-encode/decode fixed point).',
+      'Value round trips for every wire type over small field domains (full cross product for small types, pairwise/triple variations for headers) through the store, DA and cache-file paths; golden byte/hash vectors generated from the pinned tree compared verbatim; every decoder on all byte strings of length <=2/3 and on every prefix and single-byte substitution of every golden encoding (no panic, re-encode/decode fixed point). Mutations include boundary integers (every 4-byte window replaced by 17 extreme 32-bit values in both byte orders, maximal varints at every byte).',
       'Trusted: protobuf/gob libraries; golden file /verif/golden/c12.json generated once from the pinned tree; small field domains.',
       'DESIGN.md section 5 C12', 'enumeration')
 claim('C15', 'model_checking', 'explicit-state BFS over interleavings of block execution and extra calls on two real KVExecutor instances against a map reference',
@@ -87,7 +87,7 @@ claim('C20', 'model_checking', 'explicit-state BFS per configuration over next/t
       'DESIGN.md section 5 C20', 'bfs')
 
 claim('C13', 'exploration', 'stateless exploration of interleavings of all ten real loops of a sequencer node and a full node under a cooperative scheduler in one synctest bubble, delay-bounded, with a stop at every 100 ms boundary',
-      'A sequencer node (AggregationLoop, Reaper, HeaderSubmissionLoop, DataSubmissionLoop, DAIncluderLoop) and a full node (RetrieveLoop, both P2P store loops, SyncLoop, DAIncluderLoop) run unmodified with their own tickers, sharing a DA double and P2P store doubles; exactly one thread runs between two environment calls and the explorer chooses who continues (delay bound 1 quick / 2 thorough); genesis time in the past and in the future, DA block time 1 and 3 block intervals; a stop request is explored at every 100 ms boundary. Oracles on every execution: C01 chain validity of the sequencer node, C02 the full node follows the producer, C06 DA contents are the committed items, C07 DA-included soundness and finalize order on both nodes, no loop reports a fatal error; after a stop every loop returns within one block interval of virtual time; four scenarios with the sync loop\'s input channel full and the sync loop gone.',
+      'A sequencer node (AggregationLoop, Reaper, HeaderSubmissionLoop, DataSubmissionLoop, DAIncluderLoop) and a full node (RetrieveLoop, both P2P store loops, SyncLoop, DAIncluderLoop) run unmodified with their own tickers, sharing a DA double and P2P store doubles; exactly one thread runs between two environment calls and the explorer chooses who continues (delay bound 1 quick / 2 thorough); genesis time in the past and in the future, DA block time 1 and 3 block intervals; a stop request is explored at every 100 ms boundary. Oracles on every execution: C01 chain validity of the sequencer node, C02 the full node follows the producer, C06 DA contents are the committed items, C07 DA-included soundness and finalize order on both nodes, no loop reports a fatal error; after a stop every loop returns within one block interval of virtual time; four scenarios with the sync loop\'s input channel full and the sync loop gone. One DA submission may time out or fail, one datastore write may fail; locks of package block are visible to the scheduler (lock shim), a thread that can never get its lock is reported as a deadlock.',
       'NOT decided here: data races (plain memory accesses between two gates are atomic under the cooperative scheduler; no free-running -race pass is registered) and the fan-out/join of FullNode.Run in node/full.go (libp2p cannot run in a bubble; the loops are started by the harness exactly as Run starts them). Trusted: synctest, doubles; after the stop request scheduling is canonical.',
       'DESIGN.md section 5 C13', 'explore+sched')
 
